@@ -10,7 +10,7 @@ case     : `stack=tlcp|dtlcp kind=full|script|hist suite=<hex> pol=<Policy> [pol
             K.kx=0|1 K.cv=none|<byLeafKey overTranscript> K.fin=0|1 [K.sig=0|1]`
            and for histories `now0= now1=` (the certificates of connection 1 judged under the
            configuration of connection 2)
-observed : per connection `K.srv=done|err K.resumed=0|1|- K.peers=<n>|- K.chains=0|1|- K.req=0|1`
+observed : per connection `K.srv=done|err K.resumed=0|1|- K.peers=<n>|- K.chains=0|1|- K.req=0|1|-`
            and, not constrained by the property (copied; differences are notes):
            `K.cls=<error class> K.alert=<n> K.cli=ok|err`
 -/
@@ -78,9 +78,8 @@ def parseObs (ot : List String) (k : String) : Option ConnObs := do
   let cls := (kv ot s!"{k}.cls").getD "-"
   let alert := (kv ot s!"{k}.alert").getD "-"
   let cli := (kv ot s!"{k}.cli").getD "-"
-  -- a CertificateRequest can only be judged when the server's flight went out: the client
-  -- answered it (some handshake outcome other than "no mutual cipher suite")
-  let reqSeen : Option Bool := if cls == "suite" then none else some (req == "1")
+  -- a CertificateRequest can only be judged when the server sent a full-handshake flight
+  let reqSeen : Option Bool := if req == "-" then none else some (req == "1")
   pure { o := { completed := srv == "done", resumed := resumed == "1", peerCerts := peers.toNat?.getD 0,
                 chains := chains.toNat?.getD 0, certReq := reqSeen },
          req := req, cls := cls, alert := alert, cli := cli, srv := srv }
@@ -134,7 +133,7 @@ def judge (c o : String) : Option Verdict := do
   let r1 := full t p1 c1.b
   -- no mutual cipher suite: the handshake never reaches doFullHandshake (outside the model)
   let noSuite := ob1.cls == "suite"
-  let m1 := if noSuite then s!"1.srv=err 1.resumed=- 1.peers=- 1.chains=- 1.req={ob1.req} {copied "1" ob1}" else showFull "1" r1 ob1
+  let m1 := if noSuite then s!"1.srv=err 1.resumed=- 1.peers=- 1.chains=- 1.req=- {copied "1" ob1}" else showFull "1" r1 ob1
   let s1 := orElse (sigCheck c1) (if noSuite then none else judgeFull p1 c1.b ob1.o)
   if kind != "hist" then
     return { model := m1, spec := s1, note := stageNote "1" r1.stage ob1, trivial := noSuite }
@@ -150,8 +149,8 @@ def judge (c o : String) : Option Verdict := do
   let (m2, stage2) : String × Stage :=
     match resume t p2 rs with
     | .notResumed => let r2 := full t p2 c2.b; (showFull "2" r2 ob2, r2.stage)
-    | .resumedDone n ch => (s!"2.srv=done 2.resumed=1 2.peers={n} 2.chains={b01 ch} 2.req=0 {copied "2" ob2}", .done)
-    | .resumedFailed s => (s!"2.srv=err 2.resumed=- 2.peers=- 2.chains=- 2.req=0 {copied "2" ob2}", s)
+    | .resumedDone n ch => (s!"2.srv=done 2.resumed=1 2.peers={n} 2.chains={b01 ch} 2.req=- {copied "2" ob2}", .done)
+    | .resumedFailed s => (s!"2.srv=err 2.resumed=- 2.peers=- 2.chains=- 2.req=- {copied "2" ob2}", s)
   -- the behaviour that created the session, judged under the configuration now in force
   let orig : Behaviour := { c1.b with certs := mkCerts c1.b.sent.length now0 now1, certMsg := c1.b.certMsg }
   let s2 : Option (String × String) :=
